@@ -908,9 +908,10 @@ def i_XCHG(i, fmap):
     fmap[eip] = fmap[eip] + i.length
     op1 = i.operands[0]
     op2 = i.operands[1]
-    tmp = fmap(op1)
-    fmap[op1] = fmap(op2)
-    fmap[op2] = tmp
+    tmp = fmap(op2)
+    # the r/m operand is stored first: its address may depend on op1
+    fmap[op2] = fmap(op1)
+    fmap[op1] = tmp
 
 
 def i_SHR(i, fmap):
